@@ -69,6 +69,12 @@ static void materialize();
 static void lz_fn_reset();
 static void sanitize(char* s) { for (; *s; ++s) if (*s=='\t' || *s=='\n') *s=' '; }
 
+// Watchdog ("make waiting visible"): a case is a micro-scale execution; if 64 consecutive cases do not complete within
+// VERIF_CASE_TIMEOUT_S (default 120 s) the library is looping inside the current case.  SIGALRM is reported like a crash
+// (CRASH line with signal 14, the current case) and classified by the driver as tag 'hang'.
+static unsigned g_case_timeout = 120;
+static inline void watchdog_kick() { if ((ctx.evals & 63) == 1) alarm(g_case_timeout); }
+
 // Begin a case. Returns true when the case must be executed.
 static bool case_begin(const char* fmt, ...) __attribute__((format(printf,1,2)));
 static bool case_begin(const char* fmt, ...)
@@ -83,6 +89,7 @@ static bool case_begin(const char* fmt, ...)
     va_end(ap);
     sanitize(ctx.cur);
     ++ctx.evals;
+    watchdog_kick();
     // keep first, a middle one (reservoir by powers of two) and the last as samples
     if (ctx.samples.empty()) ctx.samples.push_back(ctx.cur);
     else if ((ctx.evals & (ctx.evals-1)) == 0) { if (ctx.samples.size()<2) ctx.samples.push_back(ctx.cur); else ctx.samples[1] = ctx.cur; }
@@ -130,6 +137,7 @@ static void declined(const char* fmt, ...)
 }
 static void finish_unit()
 {
+    alarm(0);
     materialize();
     if (ctx.evals && (ctx.samples.empty() || ctx.samples.back() != ctx.cur)) ctx.samples.push_back(ctx.cur);
     for (auto& s : ctx.samples) printf("SAMPLE\t%s\n", s.c_str());
@@ -162,6 +170,8 @@ static void install_handlers()
     signal(SIGBUS, crash_handler);
     signal(SIGFPE, crash_handler);
     signal(SIGILL, crash_handler);
+    signal(SIGALRM, crash_handler);
+    { const char* e = getenv("VERIF_CASE_TIMEOUT_S"); if (e && atoi(e)>0) g_case_timeout = (unsigned)atoi(e); }
     setvbuf(stdout, nullptr, _IOFBF, 1<<16);
     strcpy(ctx.cur, "(before first case)");
 }
@@ -1074,6 +1084,7 @@ static inline bool case_lazy(lazy_fmt f, long a0=0, long a1=0, long a2=0, long a
     lz_fn = f; lz_a[0]=a0; lz_a[1]=a1; lz_a[2]=a2; lz_a[3]=a3; lz_a[4]=a4; lz_a[5]=a5; lz_a[6]=a6;
     ctx.cur[0] = 0;
     ++ctx.evals;
+    watchdog_kick();
     if (ctx.samples.empty()) { materialize(); ctx.samples.push_back(ctx.cur); }
     else if ((ctx.evals & (ctx.evals-1)) == 0) { materialize(); if (ctx.samples.size()<2) ctx.samples.push_back(ctx.cur); else ctx.samples[1] = ctx.cur; }
     return true;
